@@ -80,3 +80,74 @@ def report_classes(ctx, rep, label):
         ex = m["examples"][0] if m["examples"] else {}
         desc = "%s: %d case(s); first: %s" % (label, m["count"], json.dumps(ex.get("diff", ex))[:400])
         ctx.violation(m["class"], desc, {"class": m["class"], "count": m["count"], "examples": m["examples"]})
+
+
+# ---------------------------------------------------------------- C06: random conforming files with portionings
+
+WIDTH = {"US": 2, "SS": 2, "OW": 2, "UL": 4, "SL": 4, "FL": 4, "OF": 4, "OL": 4, "AT": 4, "FD": 8, "OD": 8, "UV": 8, "SV": 8, "OV": 8}
+POOL = sorted([((8, 96), "CS"), ((8, 4416), "SQ"), ((16, 16), "PN"), ((16, 32), "LO"), ((40, 16), "US"), ((40, 17), "US"),
+               ((64, 629), "SQ"), ((114, 128), "SQ")] + [((114, SEL_ELEM[v]), v) for v in PRIM_VRS])
+
+
+def random_files(seed, n, path):
+    """n random conforming files {ts, pre, ds, plan}: ascending unique tags, even lengths that are
+    multiples of the value width, nested sequences, pixel data variants, and a legal call plan."""
+    rng = random.Random(seed * 7919 + 17)
+
+    def dataset(depth, lo, hi):
+        k = rng.randint(lo, hi)
+        picks = sorted(rng.sample(range(len(POOL)), min(k, len(POOL))))
+        out = []
+        for i in picks:
+            (tag, vr) = POOL[i]
+            if vr == "SQ":
+                if depth >= 2:
+                    continue
+                lm = rng.choice(["U", "E"])
+                items = [{"lm": rng.choice(["U", "E"]), "oddc": False, "els": dataset(depth + 1, 0, 3)}
+                         for _ in range(rng.randint(0, 3))]
+                out.append({"k": "S", "tag": list(tag), "lm": lm, "oddc": False, "items": items})
+            else:
+                w = WIDTH.get(vr, 1)
+                unit = w if w % 2 == 0 else 2
+                dl = unit * rng.choice([0, 1, 1, 2, 3, 4]) if w > 1 else rng.choice([0, 2, 4, 6, 8, 12, 16])
+                out.append({"k": "P", "tag": list(tag), "vr": vr, "dl": dl, "salt": rng.randint(0, 20)})
+        return out
+
+    with open(path, "w") as f:
+        for _ in range(n):
+            ds = dataset(0, 2, 9)
+            r = rng.random()
+            nitems = -1
+            if r < 0.3:
+                ds.append({"k": "P", "tag": [32736, 16], "vr": "OW", "dl": rng.choice([2, 4, 8, 16]), "salt": 7})
+                nitems = 1
+            elif r < 0.8:
+                frags = [{"dl": rng.choice([0, 0, 4, 8, 12]), "salt": 0}]
+                for k in range(rng.randint(0, 4)):
+                    frags.append({"dl": rng.choice([0, 2, 4, 6, 10, 16]), "salt": k + 1})
+                ds.append({"k": "X", "frags": frags})
+                nitems = len(frags)
+            if nitems >= 0 and rng.random() < 0.35:
+                ds.append({"k": "P", "tag": [65532, 65532], "vr": "OB", "dl": rng.choice([0, 2, 6]), "salt": 3})
+            # a legal plan
+            plan = []
+            if rng.random() < 0.3:
+                plan.append({"call": "pre"})
+            tail = rng.choice(["toend", "bot", "frag", "frag"])
+            if rng.random() < 0.7 or tail == "toend":
+                plan.append({"call": "meta"})
+                tags = sorted({tuple(e["tag"]) if "tag" in e else (32736, 16) for e in ds} | {(16, 0), (32736, 16), (65533, 0)})
+                stops = sorted(rng.sample(tags, min(len(tags), rng.randint(0, 3))))
+                if tail != "toend":
+                    stops = [t for t in stops if t <= (32736, 16)]
+                plan += [{"call": "upto", "tag": list(t)} for t in stops]
+            if tail == "toend":
+                plan.append({"call": "toend"})
+            else:
+                if tail == "bot":
+                    plan.append({"call": "bot"})
+                plan += [{"call": "frag"}] * (max(nitems, 0) + 2)
+            f.write(json.dumps({"ts": rng.choice(["IVRLE", "EVRLE", "EVRBE"]), "pre": rng.random() < 0.5, "ds": ds, "plan": plan},
+                               separators=(",", ":")) + "\n")
+    return n
